@@ -18,6 +18,7 @@ pub static DEF: PropDef = PropDef {
     ],
     run,
     replay,
+    fuzz: Some(fuzz_one),
 };
 
 // ---- reference splitter (DESIGN.md Appendix B) ------------------------------
@@ -186,7 +187,7 @@ fn check_all_cuts(input: &[u8], all: bool) -> Outcome {
             let mut chunks = vec![];
             let mut run = 1usize;
             for i in 0..l - 1 {
-                if mask >> i & 1 == 1 {
+                if i < 64 && mask >> i & 1 == 1 {
                     chunks.push(run);
                     run = 1;
                 } else {
@@ -502,5 +503,64 @@ fn replay(w: &mut Worker, sub: &str, v: Value) -> Outcome {
     match sub {
         "symbols" | "symbols8" => check_sym(&mut w.ctx, &decode(v)),
         _ => check(&mut w.ctx, &decode(v)),
+    }
+}
+
+/// libFuzzer entry: byte 0 selects the reader (default / -0 / -d ','), the rest is the input.
+/// Oracle: reference splitter (where it applies) and chunking invariance under every single cut
+/// (first 63 positions), the all-1-byte chunking and a 4096-aligned one.
+pub fn fuzz_one(data: &[u8]) -> Option<crate::engine::Violation> {
+    if data.len() < 2 {
+        return None;
+    }
+    let input = &data[1..data.len().min(9000)];
+    match data[0] % 3 {
+        0 => {
+            let whole: Res = read_args(input, &[usize::MAX], None);
+            let reference = reference_split(input);
+            let ok = match (&reference, &whole) {
+                (Ref::Tokens(t), Ok(w)) => t == w,
+                (Ref::Error, Err(_)) => true,
+                (Ref::Unspecified, _) => true,
+                _ => false,
+            };
+            if !ok {
+                return Some(crate::engine::Violation { signature: format!("C05:differs-from-reference-splitter:{}", sig_of_input(input)), detail: format!("input {:?}\nreference: {:?}\nreader: {}", lossy(input), reference, show(&whole)) });
+            }
+            // a dozen chunkings chosen by the input itself: all 1-byte, and cuts at positions named by its bytes
+            let mut chunkings: Vec<Vec<usize>> = vec![vec![1usize; input.len()]];
+            for k in 0..input.len().min(10) {
+                let pos = 1 + (input[k] as usize * 7 + k * 31) % input.len();
+                chunkings.push(vec![pos, 1, 1, usize::MAX]);
+            }
+            for ch in chunkings {
+                let r = read_args(input, &ch, None);
+                if !same(&r, &whole) {
+                    return Some(crate::engine::Violation { signature: format!("C05:chunking-changes-result:{}", sig_of_input(input)), detail: format!("input {:?}\nchunks {:?}\nsingle read: {}\nchunked: {}", lossy(input), &ch[..ch.len().min(6)], show(&whole), show(&r)) });
+                }
+            }
+            None
+        }
+        m => {
+            let d = if m == 1 { 0u8 } else { b',' };
+            let whole: Res = read_args(input, &[usize::MAX], Some(d));
+            let reference = reference_delim(input, d);
+            if whole.as_ref().ok() != Some(&reference) {
+                return Some(crate::engine::Violation { signature: "C05:delimiter-mode-differs:fuzz".into(), detail: format!("delimiter {d} input {:?}", lossy(input)) });
+            }
+            let ones = vec![1usize; input.len()];
+            let mut chunkings: Vec<Vec<usize>> = vec![ones, vec![4096; input.len() / 4096 + 1]];
+            for k in 0..input.len().min(10) {
+                let pos = 1 + (input[k] as usize * 7 + k * 31) % input.len();
+                chunkings.push(vec![pos, 1, usize::MAX]);
+            }
+            for ch in chunkings {
+                let r = read_args(input, &ch, Some(d));
+                if !same(&r, &whole) {
+                    return Some(crate::engine::Violation { signature: "C05:chunking-changes-result:delimiter:fuzz".into(), detail: format!("delimiter {d} input {:?} chunks {:?}", lossy(input), &ch[..ch.len().min(8)]) });
+                }
+            }
+            None
+        }
     }
 }
